@@ -439,6 +439,139 @@ func c07(c *Ctx) {
 		c.Check(good, "R5", "aggregate|(*expoHistogram).measure|record dominated by !IsNaN and !IsInf", at(ax.M, fn.Pos()), "non-finite values never reach the bucket arithmetic", "NaN/Inf reach getBin (undefined bucket index, scale collapse)")
 	}
 
+	// R9 the binary exponent used by getBin is exact for subnormal values
+	c.Rule("R9", "E4 provenance + contradiction", "getBin: the binary exponent of the value comes from a method that normalises subnormals (math.Frexp / Ilogb / Logb); where it is read out of the IEEE-754 exponent field (Float64bits >> 52) the zero field — every subnormal — is treated as a case of its own", 1)
+	if fn := c.Fn(ax, "R9", "(*expoHistogramDataPoint).getBin"); fn != nil {
+		// getBin and the package functions it calls
+		seenF := map[*FuncInfo]bool{}
+		var fs []*FuncInfo
+		var visit func(f *FuncInfo)
+		visit = func(f *FuncInfo) {
+			if f == nil || seenF[f] || f.Body() == nil {
+				return
+			}
+			seenF[f] = true
+			fs = append(fs, f)
+			inspectNoLit(f.Body(), func(n ast.Node) bool {
+				if call, ok := n.(*ast.CallExpr); ok {
+					if cf := callee(info, call); cf != nil {
+						visit(ax.declByObj(cf))
+					}
+				}
+				return true
+			})
+		}
+		visit(fn)
+		normalising, bad := false, ""
+		var badPos token.Pos
+		for _, f := range fs {
+			g := ax.FG(f)
+			fromBits := func(e ast.Expr) bool {
+				hit := false
+				ast.Inspect(e, func(m ast.Node) bool {
+					switch x := m.(type) {
+					case *ast.CallExpr:
+						if isCallTo(info, x, "math.Float64bits") {
+							hit = true
+						}
+					case *ast.Ident:
+						if d := g.LocalDef(info.Uses[x]); d != nil {
+							ast.Inspect(d, func(k ast.Node) bool {
+								if c2, ok := k.(*ast.CallExpr); ok && isCallTo(info, c2, "math.Float64bits") {
+									hit = true
+								}
+								return true
+							})
+						}
+					}
+					return true
+				})
+				return hit
+			}
+			isExtract := func(e ast.Expr) bool {
+				be, ok := unparen(e).(*ast.BinaryExpr)
+				if !ok || be.Op != token.SHR {
+					return false
+				}
+				k, isC := constInt(info, be.Y)
+				return isC && k == 52 && fromBits(be.X)
+			}
+			var extracts []ast.Expr
+			holders := map[types.Object]bool{}
+			inspectNoLit(f.Body(), func(n ast.Node) bool {
+				switch x := n.(type) {
+				case *ast.CallExpr:
+					if isCallTo(info, x, "math.Frexp") || isCallTo(info, x, "math.Ilogb") || isCallTo(info, x, "math.Logb") {
+						normalising = true
+					}
+				case *ast.BinaryExpr:
+					if isExtract(x) {
+						extracts = append(extracts, x)
+					}
+				}
+				return true
+			})
+			if len(extracts) == 0 {
+				continue
+			}
+			containsExtract := func(e ast.Expr) bool {
+				hit := false
+				ast.Inspect(e, func(m ast.Node) bool {
+					if ex, ok := m.(ast.Expr); ok && isExtract(ex) {
+						hit = true
+					}
+					if id, ok := m.(*ast.Ident); ok && holders[info.Uses[id]] {
+						hit = true
+					}
+					return true
+				})
+				return hit
+			}
+			for changed := true; changed; {
+				changed = false
+				inspectNoLit(f.Body(), func(n ast.Node) bool {
+					if as, ok := n.(*ast.AssignStmt); ok && len(as.Lhs) == len(as.Rhs) {
+						for i, r := range as.Rhs {
+							if o := objOf(info, as.Lhs[i]); o != nil && !holders[o] && containsExtract(r) {
+								holders[o] = true
+								changed = true
+							}
+						}
+					}
+					return true
+				})
+			}
+			handled := false
+			inspectNoLit(f.Body(), func(n ast.Node) bool {
+				if be, ok := n.(*ast.BinaryExpr); ok {
+					switch be.Op {
+					case token.EQL, token.NEQ, token.LSS, token.LEQ, token.GTR, token.GEQ:
+						_, cx := constInt(info, be.X)
+						_, cy := constInt(info, be.Y)
+						if (cy && containsExtract(be.X)) || (cx && containsExtract(be.Y)) {
+							handled = true
+						}
+					}
+				}
+				if sw, ok := n.(*ast.SwitchStmt); ok && sw.Tag != nil && containsExtract(sw.Tag) {
+					handled = true
+				}
+				return true
+			})
+			if !handled {
+				bad = "in " + f.Name + " the exponent is read from the exponent field of the bits (" + exprStr(extracts[0]) + ") and the field is never compared with a constant: for every subnormal value the field is 0, so they all get the same exponent whatever their magnitude"
+				badPos = extracts[0].Pos()
+			}
+		}
+		if bad != "" {
+			c.Violation("R9", "aggregate|(*expoHistogramDataPoint).getBin|binary exponent exact for subnormals", at(ax.M, badPos), "a subnormal measurement is placed in a bucket whose bounds do not contain it (scale ≤ 0): "+bad)
+		} else if normalising {
+			c.OK("R9", "aggregate|(*expoHistogramDataPoint).getBin|binary exponent exact for subnormals", at(ax.M, fn.Pos()), "exponent from a normalising library function; no unguarded read of the exponent field")
+		} else {
+			c.OK("R9", "aggregate|(*expoHistogramDataPoint).getBin|binary exponent exact for subnormals", at(ax.M, fn.Pos()), "no read of the IEEE-754 exponent field found (method of obtaining the exponent not recognised: not decided beyond that)")
+		}
+	}
+
 	c.Rule("R8", "E10 type width + E3 must-pass", "exponential buckets: the bin-window arithmetic of scaleChange is carried out in a 64-bit integer on every platform (bins span more than 2^31 at scale 20); a window grown inside spare capacity is zeroed before use (down-scaling leaves stale counts behind len)", 3)
 	if fn := c.Fn(ax, "R8", "(*expoHistogramDataPoint).scaleChange"); fn != nil {
 		sizes := ax.Pkg.TypesSizes
@@ -509,6 +642,137 @@ func c07(c *Ctx) {
 			}
 			c.Check(has, "R8", "aggregate|(*expoBuckets).record|window grown within capacity ("+exprStr(assignRHS(x.N, isCounts))+") is zeroed", at(ax.M, x.N.Pos()), "re-slice followed by a zeroing loop/clear",
 				"the window is re-sliced into spare capacity without zeroing the exposed slots: counts left behind by an earlier down-scale reappear (bucket counts sum to more than Count)")
+		}
+		// extent of the zeroing on the prepend side: the old counts are moved up by S (copy into counts[S:…]); whatever zeroes the
+		// gap must run up to that same S — a smaller bound (the old length, a min of the two) leaves slots of the spare capacity
+		// between the old length and S as they were
+		sameLin := func(a, b ast.Expr) bool {
+			expand := func(e ast.Expr) ast.Expr {
+				if id, ok := unparen(e).(*ast.Ident); ok {
+					if d := g.LocalDef(info.Uses[id]); d != nil {
+						if _, isCall := unparen(d).(*ast.CallExpr); isCall || true {
+							ta, ka := linearForm(info, d)
+							if len(ta) > 0 || ka != 0 {
+								return d
+							}
+						}
+					}
+				}
+				return e
+			}
+			eq := func(x, y ast.Expr) bool {
+				tx, kx := linearForm(info, x)
+				ty, ky := linearForm(info, y)
+				if kx != ky || len(tx) != len(ty) {
+					return false
+				}
+				for k, v := range tx {
+					if ty[k] != v {
+						return false
+					}
+				}
+				return true
+			}
+			return eq(a, b) || eq(expand(a), expand(b)) || eq(expand(a), b) || eq(a, expand(b))
+		}
+		var shiftLow []ast.Expr
+		inspectNoLit(fn.Body(), func(n ast.Node) bool {
+			if call, ok := n.(*ast.CallExpr); ok && builtinName(info, call) == "copy" && len(call.Args) == 2 {
+				if se, ok := unparen(call.Args[0]).(*ast.SliceExpr); ok && isCounts(se.X) && se.Low != nil {
+					if v, isC := constInt(info, se.Low); !isC || v != 0 {
+						shiftLow = append(shiftLow, se.Low)
+					}
+				}
+			}
+			return true
+		})
+		for _, S := range shiftLow {
+			// zeroing constructs in the same block as the copy
+			var blk *ast.BlockStmt
+			ast.Inspect(fn.Body(), func(n ast.Node) bool {
+				switch b := n.(type) {
+				case *ast.BlockStmt:
+					for _, st := range b.List {
+						if containsNoLit(st, S) {
+							if _, nested := st.(*ast.BlockStmt); !nested {
+								blk = b
+							}
+						}
+					}
+				case *ast.CaseClause:
+					for _, st := range b.Body {
+						if containsNoLit(st, S) {
+							blk = &ast.BlockStmt{List: b.Body}
+						}
+					}
+				}
+				return true
+			})
+			if blk == nil {
+				continue
+			}
+			nz, bad := 0, ""
+			for _, st := range blk.List {
+				switch x := st.(type) {
+				case *ast.ForStmt:
+					// for i := k; i < U; i++ { counts[i] = 0 }
+					zeroing := false
+					inspectNoLit(x.Body, func(n ast.Node) bool {
+						if as, ok := n.(*ast.AssignStmt); ok && len(as.Lhs) == 1 && len(as.Rhs) == 1 {
+							if ie, ok := unparen(as.Lhs[0]).(*ast.IndexExpr); ok && isCounts(ie.X) {
+								if v, isC := constInt(info, as.Rhs[0]); isC && v == 0 {
+									zeroing = true
+								}
+							}
+						}
+						return true
+					})
+					if !zeroing {
+						continue
+					}
+					nz++
+					be, ok := unparen(x.Cond).(*ast.BinaryExpr)
+					if !ok {
+						bad = "loop condition " + exprStr(x.Cond)
+						continue
+					}
+					l, op, r, good := cmpNorm(be, 1)
+					_ = l
+					switch {
+					case good && op == token.LSS && sameLin(r, S):
+					case good && op == token.LEQ && sameLin(&ast.BinaryExpr{X: r, Op: token.ADD, Y: &ast.BasicLit{Kind: token.INT, Value: "1"}}, S):
+					default:
+						bad = "the zeroing loop runs while " + exprStr(x.Cond) + ", the counts were moved up by " + exprStr(S)
+					}
+				case *ast.ExprStmt:
+					call, ok := x.X.(*ast.CallExpr)
+					if !ok || builtinName(info, call) != "clear" || len(call.Args) != 1 {
+						continue
+					}
+					se, ok := unparen(call.Args[0]).(*ast.SliceExpr)
+					if !ok || !isCounts(se.X) {
+						continue
+					}
+					nz++
+					if se.Low != nil {
+						if v, isC := constInt(info, se.Low); !isC || v > 1 {
+							bad = "clear starts at " + exprStr(se.Low)
+						}
+					}
+					if se.High == nil || !sameLin(se.High, S) {
+						hi := "the end"
+						if se.High != nil {
+							hi = exprStr(se.High)
+						}
+						bad = "clear runs up to " + hi + ", the counts were moved up by " + exprStr(S)
+					}
+				}
+			}
+			if nz == 0 {
+				continue // reported by the obligation above
+			}
+			c.Check(bad == "", "R8", "aggregate|(*expoBuckets).record|gap in front of the moved counts is zeroed up to the shift", at(ax.M, S.Pos()), "zeroing bound = shift of the copy ("+exprStr(S)+")",
+				"slots between the zeroed prefix and the moved counts keep what an earlier down-scale left in the spare capacity (bucket counts sum to more than Count): "+bad)
 		}
 		if len(grows) < 2 {
 			c.Undecided("R8", "aggregate|(*expoBuckets).record|growth sites", at(ax.M, fn.Pos()), itoa(len(grows))+" in-capacity growth sites found, 2 confirmed by reading")
